@@ -292,7 +292,7 @@ func parseRule(str string) rule {
 		case token == tokEQUAL, token == tokPLUS+tokEQUAL, token == tokLESS+tokEQUAL: // Variable & Rlimit
 			res = append(res, kv{key: token})
 
-		case strings.Contains(token, "=") && !inAare: // Map
+		case strings.Contains(token, "=") && !inAare && !isAARE(token): // Map
 			items := strings.SplitN(token, "=", 2)
 			key := items[0]
 			if len(items) > 1 {
@@ -305,7 +305,7 @@ func parseRule(str string) rule {
 				res = append(res, kv{key: key})
 			}
 
-		case strings.Contains(token, "(") && !inAare: // List
+		case strings.Contains(token, "(") && !inAare && !isAARE(token): // List
 			token = strings.Trim(token, "()\n")
 			var sep string
 			switch {
